@@ -7,6 +7,7 @@ package analyzer
 
 import (
 	"fmt"
+	"sort"
 
 	"github.com/go-critic/go-critic/linter"
 )
@@ -81,8 +82,13 @@ func VerifSnapshot() string {
 	s := fmt.Sprintf("%+v", *globalGocritic)
 	for _, info := range globalGocritic.infoList {
 		s += "\n" + info.Name
-		for name, p := range info.Params {
-			s += fmt.Sprintf(" %s=%v", name, p.Value)
+		names := make([]string, 0, len(info.Params))
+		for name := range info.Params {
+			names = append(names, name)
+		}
+		sort.Strings(names)
+		for _, name := range names {
+			s += fmt.Sprintf(" %s=%v", name, info.Params[name].Value)
 		}
 	}
 	return s
